@@ -23,6 +23,7 @@ def fixed_file(cdir, name, vec):
 
 
 def run(argv):
+    runner.RUN_TAG = 'selftest'
     pat = argv[0] if argv else None
     caps = dict(checks.TIERS['quick'])
     caps['max_unwind'] = 44
